@@ -189,7 +189,10 @@ def summary(setmap: defaultdict[str, int], stream: TextIO = sys.stdout):
     for pset in sorted(setmap.keys(), key=len):
         name = "{" + ", ".join(sorted(pset)) + "}"
         count = setmap[pset]
-        percent = (float(setmap[pset]) / float(total)) * 100
+        if total > 0:
+            percent = (float(setmap[pset]) / float(total)) * 100
+        else:
+            percent = float("nan")
         data += [[name, str(count), f"{percent:.2f}"]]
         total_count += setmap[pset]
 
